@@ -151,6 +151,10 @@ def _wide_programs(tier: str):
         if k <= 6:
             for pair in ((0, 1), (0, k - 1), (1, k - 2)):
                 yield {"wide": k, "tasks": list(pair), "how": "create"}
+    for k in (2, 3, 5):
+        yield {"wide": k, "tasks": [], "how": "create", "same_label": True}
+        yield {"wide": k, "tasks": [0], "how": "create", "same_label": True}
+        yield {"wide": k, "tasks": [k - 1], "how": "spawn", "same_label": True}
     for opts in ("trace", "logger"):
         for k in (2, 3, 4):
             yield {"wide": k, "tasks": [], "how": "create", "opts": opts}
@@ -195,6 +199,7 @@ def _wide(program, ch: Chooser) -> Result:  # noqa: C901, PLR0915
 
     def create(i: int):
         name = f"c{i}"
+        label = "item" if program.get("same_label") else name  # siblings may share one scope name
         vtime.advance(0.125)  # time passes between any two steps (measured times / stamps differ)
         created[name] = len(events)
         events.append(("created", name))
@@ -205,7 +210,7 @@ def _wide(program, ch: Chooser) -> Result:  # noqa: C901, PLR0915
             import logging as _logging
 
             kw["logger"] = _logging.getLogger(f"own.logger.{i}")
-        return ctx.scope(name, completion=make_cb(name, False), **kw)
+        return ctx.scope(label, completion=make_cb(name, False), **kw)
 
     async def child(i: int, cm=None) -> None:
         name = f"c{i}"
